@@ -346,5 +346,5 @@ def shards(tier, props, known):
                         dict(entry=entry, script_idx=i, faults=True,
                              placeholders=(("none", "base-null", "both-null") if entry == "nbmerge" else ("none", "base-empty"))
                              if (tier == "thorough" or i == 0) else ("none",),
-                             strats=(0,), **kw)))
+                             strats=(0,) if tier == "quick" else (0, 4, 6), **kw)))
     return out
